@@ -129,6 +129,15 @@ func (m *Manager) reconnect(recursed bool) {
 		m.connectMu.Lock()
 		defer m.connectMu.Unlock()
 
+		m.reconnectLoopMu.Lock()
+		m.reconnectLoop = true
+		m.reconnectLoopMu.Unlock()
+		defer func() {
+			m.reconnectLoopMu.Lock()
+			m.reconnectLoop = false
+			m.reconnectLoopMu.Unlock()
+		}()
+
 		m.skipReconnectMu.RLock()
 		if m.skipReconnect {
 			m.skipReconnectMu.RUnlock()
